@@ -263,13 +263,19 @@ def equal(e1, e2):
   if e1 == e2:
     return True
   try:
-    d = sp.together(sp.expand(e1 - e2))
+    d = e1 - e2
     if d == 0:
       return True
-    d = sp.cancel(d)
+    d = sp.expand(d)
     if d == 0:
       return True
-    d = sp.simplify(d)
-    return d == 0
+    n = sp.count_ops(d)
+    if n < 600:
+      d2 = sp.cancel(sp.together(d))
+      if d2 == 0:
+        return True
+      if n < 120:
+        return sp.simplify(d2) == 0
+    return False
   except Exception:
     return False
